@@ -461,9 +461,11 @@ pub fn semtype_to_runtypes(
     ty: &Rc<SemType>,
     name: &RuntypeUUID,
     counter: &mut usize,
-) -> anyhow::Result<(NamedSchema, Vec<NamedSchema>)> {
+) -> anyhow::Result<(NamedSchema, Vec<NamedSchema>, bool)> {
     let mut schemer = SchemerContext::new(ctx, counter);
     let out = schemer.convert_to_schema(ty, Some(name))?;
+    // the type refers to itself: the returned schemas contain references to `name`
+    let head_is_recursive = schemer.recursive_validators.contains(name);
     let vs: Vec<NamedSchema> = schemer
         .validators
         .into_iter()
@@ -477,6 +479,7 @@ pub fn semtype_to_runtypes(
             schema: out,
         },
         vs,
+        head_is_recursive,
     ))
 }
 fn maybe_not(it: Runtype, add_not: bool) -> Runtype {
